@@ -77,6 +77,64 @@ def end_of_iteration(ctx, rid, nx):
     return SZ
 
 
+def _listing_part(ctx, fn, rd, d):
+    """(the call filelist_total(self.path), index) if definition d binds element `index` of that call's result:
+    a, b = call   |   x = call; b = x[1] / x.<second field of the NamedTuple the call returns>   else None."""
+    if d is None:
+        return None
+
+    def is_listing(call):
+        if not isinstance(call, ast.Call):
+            return False
+        if any(t.name in ("filelist_total", "_filelist_total") for t in C.targets_of(ctx, fn, call)) and call.args and norm(call.args[0]) == "self.path":
+            return True
+        # a method that hands out the listing (possibly one kept on the instance by the constructor): every value it can
+        # return is filelist_total(<content path>)
+        from tfsa.flow import Flow
+        lf = [f_ for f_ in ctx.prog.functions.values() if f_.name in ("filelist_total",) and f_.module.name == "torrentfile.utils"]
+        if not lf or not any(t.cls is not None for t in C.targets_of(ctx, fn, call)):
+            return False
+        fl = getattr(ctx, "_c01_flow", None)
+        if fl is None:
+            fl = ctx._c01_flow = Flow(ctx.prog, ctx.res, opaque_funcs=lf)
+        terms = fl.term(call, fn)
+        real = [t for t in terms if not (t[0] == "const" and t[1] is None)]
+
+        def content_path(ts):
+            return bool(ts) and all((x[0] == "param" and x[2] in ("path", "content")) or (x[0] == "selfattr" and x[2] == "path") or x[0] in ("ext", "sub", "op", "rec", "const") for x in ts)
+        return bool(real) and all(t[0] == "pkgcall" and t[1] == lf[0].qual and t[2] and content_path(t[2][0][1]) for t in real)
+    v = d.value
+    if isinstance(v, tuple) and v[0] == "unpack":
+        if is_listing(v[1]):
+            return v[1], v[2]
+        # a, b = x.f0, x.f1   handled by the reaching-definition machinery as plain assigns; nothing to do here
+        return None
+    if d.kind != "assign" or v is None or isinstance(v, tuple):
+        return None
+    base = idx = None
+    if isinstance(v, ast.Subscript) and isinstance(v.slice, ast.Constant) and isinstance(v.slice.value, int):
+        base, idx = v.value, v.slice.value
+    elif isinstance(v, ast.Attribute):
+        base = v.value
+        # field position in the NamedTuple class the listing function returns
+        for t in [x for n_ in ("filelist_total", "_filelist_total") for x in ctx.prog.functions.values() if x.name == n_]:
+            ann = t.node.returns
+            if isinstance(ann, ast.Name):
+                for c in ctx.prog.classes.values():
+                    if c.name == ann.id and any(norm(b).split(".")[-1] == "NamedTuple" for b in c.node.bases):
+                        fields = [st.target.id for st in c.node.body if isinstance(st, ast.AnnAssign) and isinstance(st.target, ast.Name)]
+                        if v.attr in fields:
+                            idx = fields.index(v.attr)
+    if base is None or idx is None or not isinstance(base, ast.Name):
+        return None
+    bd = rd.reaching(base.id, d.node)
+    if len(bd) == 1:
+        b0 = next(iter(bd))
+        if b0.kind == "assign" and is_listing(b0.value):
+            return b0.value, idx
+    return None
+
+
 def same_enumeration(ctx):
     cls = ctx.prog.cls("torrentfile.torrent:TorrentFile")
     fn = cls.methods["assemble"]
@@ -98,11 +156,17 @@ def same_enumeration(ctx):
     ok_def = len(dA) == 1
     d = next(iter(dA)) if dA else None
     from_listing = False
-    if d is not None and isinstance(d.value, tuple) and d.value[0] == "unpack":
-        call = d.value[1]
-        from_listing = isinstance(call, ast.Call) and any(t.name in ("filelist_total", "_filelist_total") for t in C.targets_of(ctx, fn, call)) and call.args and norm(call.args[0]) == "self.path" and d.value[2] == 1
-    ctx.decide("C01.1", fn, ok_def and from_listing, "the hasher reads the list returned by filelist_total(self.path) (single reaching definition of %r)" % A,
-               "the list handed to the hasher is not (only) the listing of the content path: %s" % ([repr(x) for x in dA]), hc[0])
+    listing_call = None
+    part = _listing_part(ctx, fn, rd, d)
+    if part is not None:
+        listing_call, idx = part
+        from_listing = idx == 1
+    if ok_def and from_listing:
+        ctx.holds("C01.1", fn, "the hasher reads the list returned by filelist_total(self.path) (single reaching definition of %r)" % A, hc[0])
+    elif ok_def and part is None and d is not None and d.kind == "assign" and not isinstance(d.value, tuple) and isinstance(d.value, (ast.Attribute, ast.Subscript, ast.Name)):
+        ctx.undecided("C01.1", fn, "the list handed to the hasher is `%s`; whether that is the listing of the content path is not decided" % norm(d.value), hc[0])
+    else:
+        ctx.violated("C01.1", fn, "the list handed to the hasher is not (only) the listing of the content path: %s" % ([repr(x) for x in dA]), hc[0])
     # constructions of file entries
     users = []
     for n in own_nodes(fn.node):
@@ -151,7 +215,8 @@ def same_enumeration(ctx):
         ok = False
         if isinstance(v, ast.Name):
             ds = rd.reaching(v.id, sn)
-            ok = len(ds) == 1 and isinstance(next(iter(ds)).value, tuple) and next(iter(ds)).value[2] == 0 and d is not None and next(iter(ds)).value[1] is d.value[1]
+            p0 = _listing_part(ctx, fn, rd, next(iter(ds))) if len(ds) == 1 else None
+            ok = p0 is not None and p0[1] == 0 and listing_call is not None and p0[0] is listing_call
         elif isinstance(v, ast.Call):
             ok = C.is_ext_call(ctx, v, fn, ("os.path.getsize",)) and norm(v.args[0]) == "self.path"
         guarded = any(C.test_expr(b) is not None and "isfile(self.path)" in norm(C.test_expr(b)) and lab == "true" for b, lab in g.control_deps(sn))
